@@ -159,12 +159,15 @@ static void vh_op(int argc, char **argv)
 		return;
 	}
 	if (!strcmp(op, "state") && argc == 4) {
+		/* the caller's iv / nonce and stream_block arrays have exactly the block size */
+		size_t n1, n2;
+		unsigned char *p1 = unhex(argv[1], &n1), *p2 = unhex(argv[3], &n2);
+		if (g_alg == ALG_NONE || n1 != bs() || n2 != bs()) {
+			free(p1); free(p2); printf("bad-op\n"); return;
+		}
 		end_session();
-		size_t n;
-		unsigned char *p = unhex(argv[1], &n);
-		memset(&g_iv, 0, sizeof g_iv); memcpy(g_iv.b, p, n > 16 ? 16 : n); free(p);
-		p = unhex(argv[3], &n);
-		memset(&g_sb, 0, sizeof g_sb); memcpy(g_sb.b, p, n > 16 ? 16 : n); free(p);
+		memset(&g_iv, 0, sizeof g_iv); memcpy(g_iv.b, p1, n1); free(p1);
+		memset(&g_sb, 0, sizeof g_sb); memcpy(g_sb.b, p2, n2); free(p2);
 		g_off = (unsigned int)vh_ull(argv[2]);
 		printf("ok\n");
 		return;
